@@ -613,23 +613,35 @@ func replayCounterexample(p *Program, res *UnitResult, o *Obligation, base strin
 	}
 	// the quantifier-free relaxation keeps the oracle fast; the inputs found by the deciding query are pinned,
 	// and the replay on the real code is what validates the candidate
-	script := u.scriptQF(o)
+	// When the deciding query (quantified assumptions included) was satisfiable, its models are read directly;
+	// otherwise the quantifier-free relaxation proposes candidates. Either way the replay on the real code is what
+	// validates the candidate.
+	scripts := []string{u.scriptQF(o)}
+	if o.Res.Verdict == "sat" && o.Res.Solver != "qf-relaxation" {
+		scripts = []string{u.script(o), scripts[0]}
+	}
 	// look for a small counterexample first: input slices and strings of at most 64, then 2048 elements
-	var small string
+	var script, small string
 	found := false
-	for _, bound := range []int{64, 2048} {
-		var cs []string
-		for i, prm := range root.Params {
-			v := u.rootFrame.params[i]
-			for k, l := range leavesOf(prm.Type(), "elem") {
-				if l.Kind == "slice.cap" || l.Kind == "str.len" {
-					cs = append(cs, le(v.S[k], intLit(int64(bound))))
+	for _, sc := range scripts {
+		for _, bound := range []int{64, 2048} {
+			var cs []string
+			for i, prm := range root.Params {
+				v := u.rootFrame.params[i]
+				for k, l := range leavesOf(prm.Type(), "elem") {
+					if l.Kind == "slice.cap" || l.Kind == "str.len" {
+						cs = append(cs, le(v.S[k], intLit(int64(bound))))
+					}
 				}
 			}
+			small = fmt.Sprintf("(assert %s)\n", and(cs...))
+			if r := solveTerms(sc+small, []string{"alloc0"}, timeout); r != nil {
+				found = true
+				script = sc
+				break
+			}
 		}
-		small = fmt.Sprintf("(assert %s)\n", and(cs...))
-		if r := solveTerms(script+small, []string{"alloc0"}, timeout); r != nil {
-			found = true
+		if found {
 			break
 		}
 	}
